@@ -92,15 +92,37 @@ def run_e1(prop, tier, seed, technique, plan, monitor, quick_budget, thorough_bu
             rep.violation(f"[{scn.name}] {v['what']}", v["replay"], sig)
         if post is not None:
             post(rep, scn, res)
-    # the same core scenario on the SHIPPED suite (thorough tier): nothing may depend on the trimmed guest configs of the mini-suite
+    # the same kind of scenario on other suites: the SHIPPED suite (thorough tier: nothing may depend on the trimmed guest configs of the
+    # mini-suite) and the mini-suite customised through the user's overwrite config (graph shapes the sample suite lacks: an edge based on
+    # two objects)
+    alts = []
     shipped = shipped or _shipped_plan(prop)
-    if tier == "thorough" and shipped is not None and time.time() < t_end:
-        common.bootstrap("shipped")
-        for scn, k in shipped():
-            scn.suite = "shipped"
-            scn.name += "@shipped-suite"
+    if tier == "thorough" and shipped is not None:
+        alts.append(("shipped", {"suite": "shipped"}, "@shipped-suite", shipped))
+    if prop in ("C01", "C02", "C03", "C04", "C05", "C08"):
+        from vt.e4 import parsemc
+
+        vname, vtext, _ = parsemc.SUITE_VARIANTS[0]
+        setup = [(f"image1_{vm}", st) for vm, sts in (("vm1", ("install", "customize", "connect", "linux_virtuser")), ("vm2", ("install", "customize", "windows_virtuser")))
+                 for st in sts] + [("vm1", "on_customize")]
+
+        def variant_plan():
+            xs = [(engine.Scenario("XC:net1+net2/lazy", "leaves..tutorial_get.explicit_clicked", "net1 net2", lazy=True, shared=setup), 1),
+                  (engine.Scenario("XC:net1+net2/eager", "leaves..tutorial_get.explicit_clicked", "net1 net2", lazy=False, shared=setup), 0 if tier == "quick" else 1)]
+            return xs
+
+        alts.append(("mini+" + vname, {"suite": "mini", "tests_overwrite": vtext}, "@" + vname, variant_plan))
+    for label, boot, suffix, mk in alts:
+        if time.time() >= t_end:
+            break
+        common.bootstrap(**boot)
+        for scn, k in mk():
+            scn.suite = label
+            scn.name += suffix
             now = time.time()
             res = engine.explore(scn, monitor, k, max(t_end, now + 300), seed)
+            if res.errors:
+                raise common.HarnessError("; ".join(res.errors[:3]))
             rep.evaluations += res.executions
             rep.traces_validated += res.executions
             rep.transitions += res.transitions
@@ -164,7 +186,14 @@ def replay_e1(path, monitor):
         data = json.load(f)
     r = data["replay"]
     d = r["scenario"]
-    common.bootstrap(d.get("suite", "mini"))
+    label = d.get("suite", "mini")
+    if label.startswith("mini+"):
+        from vt.e4 import parsemc
+
+        text = next(t for n, t, _ in parsemc.SUITE_VARIANTS if n == label[5:])
+        common.bootstrap("mini", tests_overwrite=text)
+    else:
+        common.bootstrap(label)
     engine.install_memo()
     scn = engine.Scenario(d["name"], d["restriction"], d["nets"], lazy=d["lazy"], vm_strs=d["vm_strs"], params=d["params"],
                           D=d["D"], O=d["O"], shared=[tuple(i) for i in d["shared"]],
